@@ -648,15 +648,21 @@ class Sym:
             return []
         out = []
         if node is not None and ctx is not None and not isinstance(base, (Const, Coll, BoolV)):
-            try:
-                t = self.T.expr(ctx, node)
-            except Exception:  # noqa: BLE001
-                t = ("unknown",)
-            for m in members(t):
-                if m[0] == "cls":
-                    ci = self.repo.classes.get(m[1])
-                    if ci is not None and ci not in out:
-                        out.append(ci)
+            sites = [(ctx, node)]
+            if isinstance(base, Opq) and base.kind == "attr" and base.key in self.__dict__.get("_origin", {}):
+                sites.append(self._origin[base.key])  # e.g. the result of a generic `_required(self._x, msg)` helper
+            for c_, n_ in sites:
+                try:
+                    t = self.T.expr(c_, n_)
+                except Exception:  # noqa: BLE001
+                    t = ("unknown",)
+                for m in members(t):
+                    if m[0] == "cls":
+                        ci = self.repo.classes.get(m[1])
+                        if ci is not None and ci not in out:
+                            out.append(ci)
+                if out:
+                    break
         return out
 
     def get_attr(self, base: Val, attr: str, st: State, node: ast.expr | None = None, ctx: FuncInfo | None = None) -> Val:
@@ -845,7 +851,11 @@ class Sym:
         base = self.eval(e.value, st, ctx)
         if isinstance(base, Opq) and base.kind == "libref":
             return Opq(f"{base.key}.{e.attr}", kind="libref")
-        return self.get_attr(base, e.attr, st, e.value, ctx)
+        v = self.get_attr(base, e.attr, st, e.value, ctx)
+        if isinstance(v, Opq) and v.kind == "attr":
+            # where the value was read: its static type there still describes it after it has travelled through untyped code
+            self.__dict__.setdefault("_origin", {}).setdefault(v.key, (ctx, e))
+        return v
 
     def _e_BoolOp(self, e, st, ctx):
         is_and = isinstance(e.op, ast.And)
